@@ -14,6 +14,8 @@ import (
 	"fmt"
 	"net"
 	"os"
+	"strconv"
+	"strings"
 	"sync"
 	"sync/atomic"
 	"syscall"
@@ -145,11 +147,31 @@ func c17Setup(t *testing.T) *c17World {
 	return w
 }
 
+// c17Spell sets LOG_CLIENT_IP to one of the spellings that the station's main() reads as "disabled"
+// (strconv.ParseBool: only 1, t, T, TRUE, true, True enable it; a value it cannot parse disables it), rotating
+// with the case number; the default (unset) comes up most often.
+var c17Spellings = []string{"<unset>", "false", "<unset>", "0", "False", "<unset>", "FALSE", "f", "F", "<unset>", "", "no", "off", "No", "disabled", "2"}
+
+func c17Spell(n int) string {
+	sp := c17Spellings[n%len(c17Spellings)]
+	if sp == "<unset>" {
+		os.Unsetenv("LOG_CLIENT_IP")
+	} else {
+		os.Setenv("LOG_CLIENT_IP", sp)
+	}
+	v, err := strconv.ParseBool(os.Getenv("LOG_CLIENT_IP")) // what main() does at start-up
+	if err != nil {
+		v = false
+	}
+	logClientIP = v
+	return sp
+}
+
 func c17Run(w *c17World, rec *kit.Rec, shapes map[string]c17Shape, c c17Case, marker bool) {
 	if marker {
 		fmt.Fprintf(os.Stdout, "VERIFCASE %d\n", c.N)
 	}
-	rec.Ev("case", map[string]interface{}{"n": c.N, "desc": c.String()})
+	rec.Ev("case", map[string]interface{}{"n": c.N, "desc": c.String(), "LOG_CLIENT_IP": c17Spell(c.N)})
 	var phantom net.IP
 	switch c.Outcome {
 	case "none":
@@ -361,7 +383,7 @@ func TestVerifC17ProxyHeader(t *testing.T) {
 			for _, behaviour := range []string{"healthy", "reset-before-first-write", "close-before-first-write", "reset-after-header"} {
 				n++
 				fmt.Fprintf(os.Stdout, "VERIFCASE %d\n", n)
-				desc := fmt.Sprintf("#%d proxy-header client=%s covert=%s", n, c17Clients[ci].name, behaviour)
+				desc := fmt.Sprintf("#%d proxy-header client=%s covert=%s LOG_CLIENT_IP=%q", n, c17Clients[ci].name, behaviour, c17Spell(n))
 				rec.Ev("case", map[string]interface{}{"n": n, "desc": desc})
 				ln, err := net.Listen("tcp", "127.0.0.1:0")
 				if err != nil {
@@ -431,6 +453,68 @@ func TestVerifC17ProxyHeader(t *testing.T) {
 					rec.Sample(map[string]interface{}{"case": desc, "ops_tail": opsTail(conn)})
 				}
 			}
+		}
+	}
+	fmt.Fprintf(os.Stdout, "VERIFCASE %d\n", 9999999)
+}
+
+// TestVerifC17FdExhaust: handleNewConn – the entry point for every accepted TCP connection – first duplicates the
+// connection's descriptor (clientConn.File()).  When the process is out of descriptors that fails, and package net
+// describes the failure with both endpoints of the connection ("file tcp <local>-><client>: too many open files").
+// The fault is real, not scripted: a genuine loopback TCP connection is handed to the real handleNewConn while the
+// process's descriptor limit is 0 for the duration of the call.  The client's address (the accepted conn's remote
+// address) is announced to the offline log monitor with a VERIFNEEDLE line.
+func TestVerifC17FdExhaust(t *testing.T) {
+	rec := kit.NewRec("C17", "fdexhaust")
+	defer rec.Close()
+	s := vNewStation(t, "c17fd")
+	sharedLogger = s.rm.Logger
+	n := 7000000
+	for rep := 0; rep < kit.Tier(4, 40); rep++ {
+		for _, laddr := range []string{"127.0.0.1:0", "[::1]:0"} {
+			ln, err := net.Listen("tcp", laddr)
+			if err != nil {
+				rec.Note("cannot listen on " + laddr + ": " + err.Error())
+				continue
+			}
+			n++
+			sp := c17Spell(n)
+			fmt.Fprintf(os.Stdout, "VERIFCASE %d\n", n)
+			rec.Ev("case", map[string]interface{}{"n": n, "desc": fmt.Sprintf("#%d descriptor exhaustion in handleNewConn, listener %s, LOG_CLIENT_IP=%q", n, laddr, sp)})
+			cl, err := net.Dial("tcp", ln.Addr().String())
+			if err != nil {
+				t.Fatal(err)
+			}
+			ac, err := ln.Accept()
+			if err != nil {
+				t.Fatal(err)
+			}
+			tc := ac.(*net.TCPConn)
+			fmt.Fprintf(os.Stdout, "VERIFNEEDLE %s\n", tc.RemoteAddr().String())
+			var old syscall.Rlimit
+			if err := syscall.Getrlimit(syscall.RLIMIT_NOFILE, &old); err != nil {
+				t.Fatal(err)
+			}
+			if err := syscall.Setrlimit(syscall.RLIMIT_NOFILE, &syscall.Rlimit{Cur: 0, Max: old.Max}); err != nil {
+				t.Fatal(err)
+			}
+			_, ferr := tc.File() // the same call the handler is about to make: confirms the fault is in effect
+			s.cm.handleNewConn(s.rm, tc)
+			if err := syscall.Setrlimit(syscall.RLIMIT_NOFILE, &old); err != nil {
+				t.Fatal(err)
+			}
+			if ferr == nil {
+				rec.Inconclusive("descriptor duplication did not fail although the limit was 0", laddr)
+			} else {
+				rec.Count("evaluations", 1)
+				rec.Count("connections_handled_without_descriptors", 1)
+				rec.Distinct("nontrivial", "fdexhaust", laddr, sp)
+				if rec.WantSample() {
+					rec.Sample(map[string]interface{}{"case": n, "what_package_net_reports": strings.ReplaceAll(ferr.Error(), tc.RemoteAddr().String(), "<client>")})
+				}
+			}
+			cl.Close()
+			ln.Close()
 		}
 	}
 	fmt.Fprintf(os.Stdout, "VERIFCASE %d\n", 9999999)
